@@ -65,6 +65,12 @@ STRUCTS = {
     "PropertyDef": (S("layout::property::Property"), P("RawProperty")),
     "PlainValueStoreTail": (_m("PlainValueStore", "serialize_tail", "WritableTell"), None),
     "IndexedValueStoreTail": (_m("IndexedValueStore", "serialize_tail", "WritableTell"), None),
+    "EntryEncode": (dict(impl_self="layout::properties::Properties", item="serialize_entry", closure=False), None),
+    "ArrayDecode": (None, _m("builder::property::ArrayProperty", "create", "PropertyBuilderTrait")),
+    "ContentDecode": (None, _m("builder::property::ContentProperty", "create", "PropertyBuilderTrait")),
+    "IntDecode": (None, _m("builder::property::IntProperty", "create", "PropertyBuilderTrait")),
+    "SignedDecode": (None, _m("builder::property::SignedProperty", "create", "PropertyBuilderTrait")),
+    "VariantIdDecode": (None, _m("builder::property::VariantIdProperty", "create", "PropertyBuilderTrait")),
     "ValueStoreTail": (_m("creator::directory_pack::value_store::ValueStore", "serialize_tail", "WritableTell"), P("ValueStoreBuilder")),
 }
 
